@@ -24,6 +24,34 @@ for _f in sorted(os.listdir(_cdir)) if os.path.isdir(_cdir) else []:
         _c = json.load(open(os.path.join(_cdir, _f)))
         CLAIMS[_c["property"]] = (_c["text"], _c["technique"], _c["note"], _c["design_ref"])
 
+CLAIMS["C13"] = (
+    "Lean theorems over ALL frame lists (induction, per-line record parsing abstract with a print/parse round-trip "
+    "hypothesis): dump_many writes concat(map dump_one) and its consumption trace is pull0 check0 open write0 pull1 "
+    "check1 write1 ... (lazy, every item pulled exactly once, also when the iterable raises or a later item fails the "
+    "check); LineIterator next/back refinement; for XYZ and SDF the prefix-consumption law load_one(dump_one f ++ rest) "
+    "= (norm f, rest), hence load_many(dump_many fs) = map norm fs for every non-empty frame list with single-line "
+    "titles (separator-looking titles '$$$$', 'END', digits, blank are inside the domain; trailing blank lines "
+    "ignored), malformed_reached (any exception of load_one in frame k is raised as LoadError after exactly k frames) "
+    "and, for XYZ, truncated_last for every cut point; for PDB the same round trip and malformed_reached as _partial "
+    "(single-line titles, >=1 atom per frame) plus 'a file without any atom record is rejected'; for MOL2 _partial: "
+    "loop-level theorems (never swallows, no-molecule rejected) and kernel-evaluated round trips / all cut points of "
+    "concrete sequences; the api funnel with PEP 479 (nothing but LoadError leaves load_many, nothing is swallowed); "
+    "FCHK point/step counter invariants. The except-clauses and peek code of every load_many, of api.load_many and the "
+    "use of the iterable in api.dump_many are re-extracted from /repo by ast on every run and tied to the model by "
+    "decide. Witnesses (decide) that the loops before the 7 fix commits violated the property, and two domain-boundary "
+    "witnesses of the current tree (multi-line XYZ title, atom-less PDB frame). Model tied to the code by "
+    "correspondence streams: whole files, every cut point, corrupted counts/fields/separators/blank lines for 6 "
+    "formats (frames, titles, bond counts, warning flag, line number of the LoadError), dump_many event traces, "
+    "synthetic FCHK trajectories; plus a direct search on the real code.",
+    "Lean 4 proof (induction over frame lists, generic block lemma for generator loops, decide over ast-extracted "
+    "control-flow skeletons) + model-vs-code correspondence; PDB/MOL2 partial",
+    "Modelled: str.strip/split/int on ASCII, newline-terminated lines, numpy negative-dimension errors, PEP 479. Per-"
+    "line record parsers are abstract (validity decided by the real single-line parsers in the correspondence). GRO, "
+    "extXYZ, FCHK are reader-only (no writer in the library). Not proved: MOL2 round trip in general, multi-line PDB "
+    "titles, SDF truncation beyond the header for all cut points (all covered by the every-cut-point correspondence).",
+    "DESIGN.md §5 C13",
+)
+
 NOT_YET = {}
 
 
